@@ -410,6 +410,7 @@ def train_multi_agent_on_policy(
                     for idx, agent in enumerate(agent_ids)
                 }
             else:
+                mean_scores = np.full((len(pop), len(agent_ids)), np.nan)
                 mean_score_dict = {
                     "train/mean_score/" + agent: np.nan
                     for idx, agent in enumerate(agent_ids)
@@ -519,7 +520,14 @@ def train_multi_agent_on_policy(
                     [np.mean(agent.fitness[-5:], axis=0) for agent in pop]
                 )
                 avg_score_arr = np.array(
-                    [np.mean(agent.scores[-10:], axis=0) for agent in pop]
+                    [
+                        (
+                            np.mean(agent.scores[-10:], axis=0)
+                            if len(agent.scores) > 0
+                            else np.full(len(agent_ids), np.nan)
+                        )
+                        for agent in pop
+                    ]
                 )
                 fitness = {
                     agent: fitness_arr[:, idx] for idx, agent in enumerate(agent_ids)
